@@ -139,7 +139,7 @@ pub fn exec(a: &[&str]) -> String {
 }
 
 pub fn gen(tier: Tier, r: &mut Rng, emit: &mut dyn FnMut(String)) {
-    let n = if tier == Tier::Quick { 50 } else { 400 };
+    let n = if tier == Tier::Quick { 40 } else { 400 };
     let mut made = 0;
     let mut attempts = 0;
     while made < n && attempts < n * 40 {
